@@ -36,11 +36,16 @@ func init() {
 			"a third of the shared-Runtime cases build the other operations while Runtime.BasePath and Runtime.Host hold other values (the case's own are assigned to the fields afterwards); " +
 			"1% of the values and a few static words are 63..4096 bytes long with reserved bytes at the ends and at the 64-byte boundaries; a third of the static queries leave '/' ':' '@' ',' unencoded and a quarter of their values look like paths or URLs ('https://h/cb' '/srv/data/' 'a/../b' 'src/./gen' '//'); " +
 			"values with '$' ('$1' '${a}' '$$' ...), placeholder names that are siblings under pattern matching ('a.b' 'a-b' 'axb'); " +
+			"one placeholder in ten (one in six of the base path's) has a name outside the unreserved set: a space, non-ASCII letters, '^' '|' '\"' '<' '>' '\\' '`', sub-delimiters, ':' '@' '[' ']' ('user id' 'straße' 'x^y' 'a|b' '名前' and 1-4 random such runes); " +
+			"operation IDs: the case's operation has ID 'op', one of a 6-ID pool or none; a third of the operations built before it on the same Runtime carry the same ID (or likewise none), a quarter of those are the case's own pattern with other values; a fifth of the earlier operations are sent with Runtime.Submit instead of built; " +
 			"one case in twenty is also sent once, through Runtime.Submit or the Submit of the Runtime's opentracing / opentelemetry wrapper (context without span), into a recording RoundTripper (no network): the URL the transport is handed is judged like the built ones and must be the same; " +
 			"oracle = reference builder written from the statement. non-trivial = case with >= 1 placeholder whose value needs escaping, or >= 1 query-name collision between caller/pattern/base; " +
 			"distinct by (base, pattern, values, caller query)",
 		Assumptions: []string{
 			"static (non-placeholder) text of base path and pattern is restricted to [A-Za-z0-9._~-]: percent-escapes, '{' '}' or other reserved bytes in static text are not generated (the statement defines no syntax for them)",
+			"a placeholder name is the text between '{' and the next '}': any valid UTF-8 without '/', '?', '#', '%', '{', '}' and control bytes (generated: unreserved bytes, space, non-ASCII letters, ^ | \" < > \\ ` : @ , ; = & + $ ! * ' ( ) [ ]); the name does not enter the URL",
+			"a pattern without leading slash whose first segment holds a ':' (only a placeholder name can: '{a:b}/x') is not a relative reference (RFC 3986 4.2) and is not judged; with a leading slash, or in any later segment, such a name is judged like any other",
+			"ClientOperation.ID is a free label: it does not enter the URL, and two operations of one Runtime may carry the same ID or none",
 			"every placeholder that occurs in base path or pattern has a value set; patterns with an unset placeholder are not judged",
 			"'joined' means: the non-empty segments of the base path followed by the non-empty segments of the pattern; '.' and '..' as static segments and inner '//' of a template are not generated",
 			"only the pattern's trailing slash is owed; pattern \"/\" or \"\" is the root, not a trailing slash; the base path's own trailing slash is not owed",
@@ -111,6 +116,20 @@ type Case struct {
 	// of the request the transport is handed is the URL the client built: it is judged like the others and must
 	// be the same.
 	Submit string `json:"submit,omitempty"`
+	// OpID is the ClientOperation.ID of the case's operation ("" = "op", as every case had before the field
+	// existed); NoOpID sends it without an ID. The ID is a free label: it does not enter the URL.
+	OpID   string `json:"op_id,omitempty"`
+	NoOpID bool   `json:"no_op_id,omitempty"`
+}
+
+func (c *Case) opID() string {
+	switch {
+	case c.NoOpID:
+		return ""
+	case c.OpID == "":
+		return "op"
+	}
+	return c.OpID
 }
 
 // Op is an operation built on a shared Runtime before the case proper.
@@ -120,6 +139,22 @@ type Op struct {
 	Params   []KV     `json:"params,omitempty"`
 	Query    []QP     `json:"query,omitempty"`
 	OSchemes []string `json:"operation_schemes,omitempty"`
+	// ID is the ClientOperation.ID ("" = "before"); NoID sends the operation without an ID. Via "submit" sends
+	// the operation through Runtime.Submit (into the recording transport) instead of building it with
+	// CreateHttpRequest.
+	ID   string `json:"id,omitempty"`
+	NoID bool   `json:"no_id,omitempty"`
+	Via  string `json:"via,omitempty"`
+}
+
+func (o *Op) opID() string {
+	switch {
+	case o.NoID:
+		return ""
+	case o.ID == "":
+		return "before"
+	}
+	return o.ID
 }
 
 // ---------------------------------------------------------------------------------------------
@@ -537,7 +572,12 @@ func open(c *Case) (*client.Runtime, *recorder) {
 		if method == "" {
 			method = "GET"
 		}
-		op := &runtime.ClientOperation{ID: "before", Method: method, PathPattern: string(o.Pattern), Schemes: append([]string(nil), o.OSchemes...), Params: writer}
+		op := &runtime.ClientOperation{ID: o.opID(), Method: method, PathPattern: string(o.Pattern), Schemes: append([]string(nil), o.OSchemes...), Params: writer}
+		if o.Via == "submit" {
+			op.Reader = runtime.ClientResponseReaderFunc(func(runtime.ClientResponse, runtime.Consumer) (interface{}, error) { return nil, nil })
+			mon.Catch(func() { _, _ = rt.Submit(op) })
+			continue
+		}
 		mon.Catch(func() { _, _ = rt.CreateHttpRequest(op) })
 	}
 	return rt, rec
@@ -587,7 +627,7 @@ func operation(rt *client.Runtime, c *Case, order []int) *runtime.ClientOperatio
 	}
 	writer := runtime.ClientRequestWriterFunc(func(req runtime.ClientRequest, _ strfmt.Registry) error { return calls(req, false) })
 	op := &runtime.ClientOperation{
-		ID:          "op",
+		ID:          c.opID(),
 		Method:      c.Method,
 		PathPattern: string(c.Pattern),
 		Schemes:     append([]string(nil), c.OSchemes...),
@@ -685,6 +725,12 @@ func runCase(m *mon.M, c *Case) {
 		m.Class("not-judged/unset-placeholder")
 		return
 	}
+	if pp, _ := splitTemplate(string(c.Pattern)); !strings.HasPrefix(pp, "/") && strings.Contains(strings.SplitN(pp, "/", 2)[0], ":") {
+		// "{a:b}/x": a reference without leading slash whose first segment holds a colon is not a relative
+		// reference (RFC 3986 4.2: it reads as scheme "{a"); the statement says nothing about such a pattern
+		m.Class("not-judged/colon-in-first-segment-of-pattern-without-leading-slash")
+		return
+	}
 	ncalls := len(c.Params) + len(c.Query)
 	orders := c.Orders
 	if len(orders) == 0 {
@@ -735,6 +781,12 @@ func runCase(m *mon.M, c *Case) {
 	}
 	if len(c.AuthCalls) > 0 {
 		m.Class(fmt.Sprintf("auth-writer-sets-params/default=%v", c.AuthDefault))
+	}
+	if hasOddName(ref) {
+		m.Class("placeholder-name-needs-escaping")
+	}
+	if len(c.Before) > 0 {
+		m.Class(fmt.Sprintf("operation-id/same-as-an-earlier-operation=%v/none=%v", sharesID(c), c.opID() == ""))
 	}
 	for _, ord := range orders {
 		for k := 0; k < rep; k++ {
@@ -858,11 +910,15 @@ func judge(m *mon.M, c *Case, ref *refURL, values map[string]string, b built, or
 	one := minimal(c, [][]int{ord})
 	// every violation below goes through viol, which qualifies the signature of a case built on a
 	// reused Runtime when the same build on a Runtime of its own gives another result
-	sfx, sfxDone := "", false
+	sfx, nameSfx, sfxDone := "", "", false
 	viol := func(sig, detail string, cs interface{}) {
 		if !sfxDone {
 			sfx, sfxDone = reusedSuffix(c, ord, b), true
+			if sfx == "" { // a failure of history is not laid on the names
+				nameSfx = oddNameSuffix(c, ref, values, ord, b)
+			}
 		}
+		sig += nameSfx
 		if b.via != "" {
 			sig += "/submit-" + b.via
 			detail = "as handed to the transport by Submit (" + b.via + "): " + detail
@@ -1038,8 +1094,94 @@ func reusedSuffix(c *Case, ord []int, b built) string {
 	}
 	fresh := *c
 	fresh.Shared, fresh.Before, fresh.Reassign = false, nil, false
-	if rebuild(&fresh, ord, b).key() != b.key() {
-		return "/only-on-reused-runtime"
+	if rebuild(&fresh, ord, b).key() == b.key() {
+		return ""
+	}
+	// history matters; is it the history of this operation ID? The same operations built first, the case's
+	// own operation under an ID of its own
+	if sharesID(c) {
+		apart := *c
+		apart.Shared = false
+		apart.OpID, apart.NoOpID = unusedID(c), false
+		if rebuild(&apart, ord, b).key() != b.key() {
+			return "/only-after-another-operation-with-the-same-id"
+		}
+	}
+	return "/only-on-reused-runtime"
+}
+
+// sharesID: was an operation with the ID of the case's operation (the empty one included) built before it?
+func sharesID(c *Case) bool {
+	for i := range c.Before {
+		if c.Before[i].opID() == c.opID() {
+			return true
+		}
+	}
+	return false
+}
+
+func unusedID(c *Case) string {
+	id := "op-of-its-own"
+	for again := true; again; {
+		again = false
+		for i := range c.Before {
+			if c.Before[i].opID() == id {
+				id, again = id+"-", true
+			}
+		}
+	}
+	return id
+}
+
+// hasOddName: does a placeholder the templates use have a name with a byte outside the unreserved set?
+func hasOddName(ref *refURL) bool {
+	for n := range usedNames(ref) {
+		if needsEscape(n) {
+			return true
+		}
+	}
+	return false
+}
+
+// pathRight: the build succeeded and its escaped path decodes, segment by segment, to the expected texts.
+func pathRight(b built, want []string) bool {
+	return b.err == "" && b.panicked == "" && sameDecoded(strings.Split(b.escPath, "/"), want)
+}
+
+// oddNameSuffix qualifies a signature raised for a case with such a placeholder name: the URL is the same when
+// the placeholders are consistently called something else (names do not enter it), so when the path is wrong
+// and the same build of the renamed case gives the right path, the failure is one of the names.
+func oddNameSuffix(c *Case, ref *refURL, values map[string]string, ord []int, b built) string {
+	if !hasOddName(ref) {
+		return ""
+	}
+	want := ref.expectedSegments(values)
+	if pathRight(b, want) {
+		return ""
+	}
+	rc := *c
+	rc.Shared = false
+	rc.Params = append([]KV(nil), c.Params...)
+	taken := map[string]bool{}
+	for _, p := range c.Params {
+		taken[p.Name] = true
+	}
+	k := 0
+	for i, p := range rc.Params {
+		if !needsEscape(p.Name) {
+			continue
+		}
+		plain := fmt.Sprintf("zq%d", k)
+		for k++; taken[plain]; k++ {
+			plain = fmt.Sprintf("zq%d", k)
+		}
+		taken[plain] = true
+		rc.Params[i].Name = plain
+		rc.BasePath = mon.Q(strings.ReplaceAll(string(rc.BasePath), "{"+p.Name+"}", "{"+plain+"}"))
+		rc.Pattern = mon.Q(strings.ReplaceAll(string(rc.Pattern), "{"+p.Name+"}", "{"+plain+"}"))
+	}
+	if pathRight(rebuild(&rc, ord, b), want) {
+		return "/placeholder-name-needs-escaping"
 	}
 	return ""
 }
@@ -1130,6 +1272,13 @@ var (
 	paramNames  = []string{"a", "b", "id", "ab", "user-id", "x_y", "a.b", "tenant", "a-b", "axb"}
 	// names that are siblings of one another if a placeholder is ever read as a pattern ('.' matching any byte)
 	siblingNames = []string{"a.b", "a-b", "axb", "a", "b"}
+	// placeholder names outside the unreserved set: whatever stands between the braces is the name. Not in a
+	// name: '/' '?' '#' (they end a segment or the path), '%' '{' '}' (no syntax is defined for them), control bytes
+	oddNames = []string{
+		"user id", "stra\u00dfe", "x^y", "a|b", "\u540d\u524d", "\u00e9", "a\"b", "<t>", "a\\b", "a`b", " ", "a b c", " id", "id ",
+		"a:b", "a@b", "a,b", "a;v", "k=v", "a&b", "a+b", "$a", "a!", "a*", "(a)", "a'b", "[0]", "a.b c", "\u03a9-id",
+	}
+	operationIDs = []string{"getThing", "op", "before", "listItems", "get thing/\u00fc", "a"}
 	queryNames   = []string{"x", "y", "q", "id", "a b", "k=", "\xc3\xa9"}
 	hostileVals  = []string{
 		"", "", ".", "..", "...", "/", "a/b", "../x", "/etc/passwd", "%2F", "%2f..", "%", "%zz", "%25", "?", "?x=1", "a?b=c", "#", "#frag", "a#b",
@@ -1272,6 +1421,21 @@ func genStaticQuery(r *rand.Rand) string {
 	return strings.Join(pairs, "&")
 }
 
+// oddNameRunes: what a generated odd name is made of (see oddNames).
+var oddNameRunes = []rune(" ^|\"<>\\`:@,;=&+$!*'()[]ab1.-_~\u00df\u00e9\u00f1\u540d\u03a9")
+
+func genOddName(r *rand.Rand) string {
+	if r.Intn(3) != 0 {
+		return oddNames[r.Intn(len(oddNames))]
+	}
+	n := 1 + r.Intn(4)
+	rs := make([]rune, n)
+	for i := range rs {
+		rs[i] = oddNameRunes[r.Intn(len(oddNameRunes))]
+	}
+	return string(rs)
+}
+
 func genSegments(r *rand.Rand, n int, names *[]string) []string {
 	var segs []string
 	pool := paramNames
@@ -1280,6 +1444,9 @@ func genSegments(r *rand.Rand, n int, names *[]string) []string {
 	}
 	pick := func() string {
 		nm := pool[r.Intn(len(pool))]
+		if r.Intn(10) == 0 {
+			nm = genOddName(r)
+		}
 		*names = append(*names, nm)
 		return "{" + nm + "}"
 	}
@@ -1481,6 +1648,35 @@ func genCase(r *rand.Rand, norders int) *Case {
 			c.Before = append(c.Before, o)
 		}
 	}
+	// operation IDs: a free label. Some operations have none, and operations built before on the same Runtime
+	// may carry the ID of the case's operation (two versions of a route, clients of two descriptions)
+	switch r.Intn(8) {
+	case 0:
+		c.NoOpID = true
+	case 1, 2:
+		c.OpID = operationIDs[r.Intn(len(operationIDs))]
+	}
+	for i := range c.Before {
+		o := &c.Before[i]
+		switch r.Intn(6) {
+		case 0, 1:
+			o.ID, o.NoID = c.opID(), c.NoOpID
+			if r.Intn(4) == 0 {
+				// the case's own operation, built before with other values (and, with Reassign, under another configuration)
+				o.Pattern = c.Pattern
+				for _, p := range c.Params {
+					o.Params = append(o.Params, KV{Name: p.Name, Value: mon.Q(genValue(r, uniq))})
+				}
+			}
+		case 2:
+			o.ID = operationIDs[r.Intn(len(operationIDs))]
+		case 3:
+			o.NoID = r.Intn(2) == 0
+		}
+		if r.Intn(5) == 0 {
+			o.Via = "submit"
+		}
+	}
 	if ncalls > 0 && r.Intn(4) == 0 {
 		// one path value and/or one query entry go through the authentication writer
 		if len(c.Params) > 0 && r.Intn(3) != 0 {
@@ -1531,6 +1727,9 @@ func genSegmentsBase(r *rand.Rand, names *[]string) []string {
 	for i := 0; i < n; i++ {
 		if r.Intn(7) == 0 {
 			nm := paramNames[r.Intn(len(paramNames))]
+			if r.Intn(6) == 0 {
+				nm = genOddName(r)
+			}
 			*names = append(*names, nm)
 			segs = append(segs, "{"+nm+"}")
 		} else {
